@@ -113,7 +113,7 @@ S(id="P.cost.native", props=["C04"], spec="native/cost_enum.c", mode="N", link=[
        "node (one parse); every cost field is own cost + the children's fields and the root carries the minimum; without the flag the fields are the rules' own costs")
 S(id="T.pair.native", props=["C13"], spec="native/pair_enum.c", mode="N", link=["allocate.c", "hashtab.c", "objstack.c", "vlobject.c", "yaep.c"], harness="main", timeout=3600,
   params={"quick": {"NSYM": 3, "INLEN": 2, "PAIR_ALTS": 1}, "thorough": {"NSYM": 3, "INLEN": 2, "PAIR_ALTS": 2}},
-  bound="descriptions with one rule of 1 (thorough 2) alternatives of <= 2 symbols over {'a', B, N} and 7 translation forms, inputs of length <= 2; plus 216 ambiguous descriptions (2-3 alternatives for one token with abstract-node costs 1..3 in every order: flat, nested under S : P P, under a common node); one/all parses; with/without cost flag",
+  bound="descriptions with one rule of 1 (thorough 2) alternatives of <= 2 symbols over {'a', B, N} and 7 translation forms, inputs of length <= 2; plus 216 ambiguous descriptions (2-3 alternatives for one token with abstract-node costs 1..3 in every order: flat, nested under S : P P, under a common node); ambiguous sums of 2..6 operands in three translation forms (the table of kept blocks of the cost pruning grows while nodes are released); one/all parses; with/without cost flag",
   functions=["yaep_parse", "make_parse", "find_minimal_translation", "yaep_free_tree", "yaep_free_grammar"],
   what="whole-parse ownership: parse_free only gets blocks parse_alloc returned during this parse, at most once, never NULL; everything reachable from the root is live after the parse and after "
        "yaep_free_grammar; yaep_free_tree releases every block exactly once, termcb once per TERM node; no block of the parse stays unreleased")
